@@ -4,7 +4,7 @@
    of REF/PV buses at these values (solver contract, checked per run).
    qrun solve qlim2 gens = the loop of _run_ac_pf_with_qlims_enforced over an arbitrary PF oracle [solve]. *)
 From Coq Require Import ZArith QArith Qabs List Bool.
-From PPV Require Import Base.QN Base.QC C01.Model C01.Balance C04.Model C04.Proofs.
+From PPV Require Import Base.QN Base.QC C01.Model C01.Proofs C01.Balance C04.Model C04.Proofs C04.Demand.
 Import ListNotations.
 Open Scope Q_scope.
 
@@ -118,3 +118,57 @@ Theorem C04_pq_results_are_setpoints : forall e, e_on e = true ->
   res_pq_p e == e_p e * e_sc e /\ res_pq_q e == e_q e * e_sc e.
 Proof. exact pq_setpoint. Qed.
 Print Assumptions C04_pq_results_are_setpoints.
+
+(* ---- the PD/QD backup / restore history of _run_ac_pf_with_qlims_enforced (run_newton_raphson_pf.py:182-250), for EVERY iteration
+   history.  passes = the violating passes of the loop (bus PD / gen PG columns left by ppci_to_pfsoln are arbitrary oracle data, the
+   rows limited by the pass with their limit), fresh_passes = a pass limits rows that are not limited yet, rows_ok = GEN_BUS of the
+   limited rows points into the bus table.  drun = the demand columns the next PF call sees. *)
+(* QD seen by the solver = backup minus the limit of every limited row of the bus, each limit counted exactly once although the
+   loop subtracts gen[i, QG] for ALL limited rows in every pass (pfsoln has zeroed the QG of the rows switched off earlier) *)
+Theorem C04_qlim_demand_qd : forall gbus pd0 qd0 passes k,
+  rows_ok gbus (length qd0) passes -> fresh_passes [] passes = true ->
+  nth k (ds_qd (drun gbus pd0 qd0 passes)) 0 == nth k qd0 0 - fixed_total gbus k passes.
+Proof. exact demand_qd. Qed.
+Print Assumptions C04_qlim_demand_qd.
+(* PD seen by the solver = the column the last pfsoln left (the backup, plus the distributed slack share where pfsoln writes it)
+   minus the PG of every limited row of the bus *)
+Theorem C04_qlim_demand_pd : forall gbus pd0 qd0 passes p k,
+  (forall i, In i (ds_lim (drun gbus pd0 qd0 (passes ++ [p]))) -> (gbus i < length (ps_pd1 p))%nat) ->
+  nth k (ds_pd (drun gbus pd0 qd0 (passes ++ [p]))) 0 ==
+  nth k (ps_pd1 p) 0 - sumf (fun i => nth i (ps_pg p) 0)
+                            (filter (fun i => Nat.eqb (gbus i) k) (ds_lim (drun gbus pd0 qd0 (passes ++ [p])))).
+Proof. exact demand_pd. Qed.
+Print Assumptions C04_qlim_demand_pd.
+(* frame: after the loop the bus QD column is the column before the loop, for every history; PD is the column the last pfsoln
+   wrote, i.e. the column before the loop whenever pfsoln does not write PD (no distributed slack) *)
+Theorem C04_qlim_demand_frame : forall gbus pd0 qd0 passes last_pd1 k,
+  rows_ok gbus (length qd0) passes -> fresh_passes [] passes = true ->
+  nth k (snd (dfinal qd0 (drun gbus pd0 qd0 passes) last_pd1)) 0 == nth k qd0 0 /\
+  (last_pd1 = pd0 -> fst (dfinal qd0 (drun gbus pd0 qd0 passes) last_pd1) = pd0).
+Proof. exact demand_frame. Qed.
+Print Assumptions C04_qlim_demand_frame.
+Example C04_qlim_demand_nonvacuous :
+  fresh_passes [] wit_passes = true /\
+  ds_qd (drun wit_gbus [0; 5; 6] [0; 4; 6] wit_passes) = [0; 5 # 2; 6] /\
+  ds_pd (drun wit_gbus [0; 5; 6] [0; 4; 6] wit_passes) = [0; 0; 6] /\
+  dfinal [0; 4; 6] (drun wit_gbus [0; 5; 6] [0; 4; 6] wit_passes) [0; 5; 6] = ([0; 5; 6], [0; 4; 6]).
+Proof. exact demand_witness. Qed.
+Print Assumptions C04_qlim_demand_nonvacuous.
+
+(* ---- default q limits.  row_limits = the QMIN/QMAX of a gen row: min_q_mvar / max_q_mvar, a missing (NaN) limit replaced by
+   -/+ q_lim_default; since "fix: a recycled power flow with recycle["gen"] keeps the default q limits of gens without limits" the
+   recycled path writes the same limits.  A gen row without limits is never selected by the q-limit loop while |QG| stays within the
+   default; the rule before the repair (NaN -> 0 in the recycled path) limited such a gen to q = 0. *)
+Theorem C04_unlimited_gen_never_limited : forall gens limited qg qdef i g,
+  nth_error gens i = Some g ->
+  (g_qmin g, g_qmax g) = row_limits qdef None None ->
+  Qabs (nthq qg i) <= qdef ->
+  ~ In i (viol_max gens limited qg) /\ ~ In i (viol_min gens limited qg).
+Proof. exact unlimited_row_never_limited. Qed.
+Print Assumptions C04_unlimited_gen_never_limited.
+Theorem C04_recycled_old_limits_refuted :
+  row_limits_recycled_old None None = (0, 0) /\
+  viol_max [wit_nolim_gen] [] [1 # 2] = [0%nat] /\
+  (let l := row_limits 1000000000 None None in viol_max [mkGen 1 1 1 (fst l) (snd l) 0 true false] [] [1 # 2] = []).
+Proof. exact recycled_old_limits_refuted. Qed.
+Print Assumptions C04_recycled_old_limits_refuted.
